@@ -3,6 +3,8 @@
 package main
 
 import (
+	"path/filepath"
+	"regexp"
 	"fmt"
 	"os"
 	"reflect"
@@ -67,6 +69,28 @@ func main() {
 	}
 	b.WriteString("].\n\n")
 
+	// JSON aliases: further names accepted when READING a caveat type.  Read off the source text (calls
+	// RegisterCaveatJSONAlias(Cav<Name>, "alias") ); the constant is resolved through the registered caveat of that name.
+	b.WriteString("(* (alias, type number) from the RegisterCaveatJSONAlias calls in the source *)\nDefinition json_aliases : list (string * N) := [\n")
+	var aliasLines []string
+	reAlias := regexp.MustCompile(`RegisterCaveatJSONAlias\(\s*(?:[A-Za-z_]+\.)?Cav([A-Za-z0-9_]+)\s*,\s*"([^"]+)"\s*\)`)
+	filepath.WalkDir("/repo", func(path string, d os.DirEntry, err error) error {
+		if err != nil || d.IsDir() || !strings.HasSuffix(path, ".go") || strings.HasSuffix(path, "_test.go") {
+			return nil
+		}
+		src, _ := os.ReadFile(path)
+		for _, m := range reAlias.FindAllStringSubmatch(string(src), -1) {
+			for _, c := range regs {
+				if c.Name() == m[1] {
+					aliasLines = append(aliasLines, fmt.Sprintf("  (%q, %d)", m[2], uint64(c.CaveatType())))
+				}
+			}
+		}
+		return nil
+	})
+	sort.Strings(aliasLines)
+	b.WriteString(strings.Join(aliasLines, ";\n"))
+	b.WriteString("\n].\n\n")
 	fmt.Fprintf(&b, "Definition f_cav_min_user_defined : N := %d.\nDefinition f_cav_max_user_defined : N := %d.\nDefinition f_cav_unregistered : N := %d.\n",
 		uint64(macaroon.CavMinUserDefined), uint64(macaroon.CavMaxUserDefined), uint64(macaroon.CavUnregistered))
 	fmt.Fprintf(&b, "Definition f_scheme_flyv1 : string := %q.\n", macaroon.AuthorizationSchemeFlyV1)
